@@ -149,6 +149,8 @@ def check_sfcf(ctx, case):
                         offs.add(line_ends[i] - 1 - rng.randrange(1, len(l)))
             offs = sorted(o for o in offs if 0 <= o < len(full))
         ctx.count('offsets', len(offs))
+        if lay == 'o' and ctx.lean is not None:
+            probs += tie_text_block(ctx, case, path, full, offs)
         for k in offs:
             open(path, 'wb').write(full[:k])
             try:
@@ -172,6 +174,63 @@ def check_sfcf(ctx, case):
                 break
     finally:
         shutil.rmtree(root, ignore_errors=True)
+    return probs
+
+
+def tie_text_block(ctx, case, path, full, offs):
+    """the block reader of the separate layout (`_read_o_file`) against PV/Model/Text.lean at every cut: same
+    accept / refuse, and the same T data lines when accepted"""
+    import pyerrors.input.sfcf as sfin
+    probs = []
+    nm, quarks, wf, wf2, bb = case['corrs'][case['want']]
+    T = 1 if bb else case['T']
+    # where the requested block's data lines start in the complete file
+    start, cur = None, {}
+    for i, l in enumerate(full.decode().split('\n')):
+        w = l.split()
+        if l.startswith('[correlator]'):
+            cur = {}
+        elif len(w) == 2 and w[0] in ('name', 'quarks', 'wf', 'wf_2'):
+            cur[w[0]] = w[1]
+        elif l in ('corr_t', 'corr'):
+            if cur.get('name') == nm and cur.get('quarks') == quarks and int(cur.get('wf', -1)) == wf and (not bb or int(cur.get('wf_2', -1)) == wf2):
+                start = i + 1
+                break
+    if start is None:
+        ctx.count('text-tie:block-not-located')
+        return probs
+    key = sfin._specs2key(nm, quarks, '0', str(wf), str(wf2))
+    intern = {nm: {'T': T, 'single': bool(bb), 'spec': {quarks: {'0': {str(wf): {str(wf2): {'start': start}}}}}}}
+    d = os.path.dirname(path)
+    try:
+        for k in offs:
+            open(path, 'wb').write(full[:k])
+            try:
+                got = ('ok', [float(v) for v in sfin._read_o_file(d, nm, [key], intern, '2.0', 0)[key]])
+            except Exception as e:
+                got = ('exc', type(e).__name__)
+            r = ctx.lean.call({'op': 'textblock', 'text': full[:k].decode('latin-1'), 'start': start, 'T': T})
+            ctx.count('text-tie:' + ('accepted' if got[0] == 'ok' else 'refused'))
+            if '_err' in r:
+                probs.append(('disagree', 'lean-driver-error', r['_err']))
+                break
+            if 'exc' in r:
+                if got[0] == 'ok':
+                    probs.append(('disagree', 'text-block', 'cut at %d: implementation accepts, model refuses (EOF)' % k))
+                    break
+            else:
+                try:
+                    want = [float(l.split()[(0 if bb else 1)]) for l in r['lines']]
+                except Exception:
+                    want = None            # a complete line that is no data line: the implementation raises on it as well
+                if got[0] == 'ok' and want != got[1]:
+                    probs.append(('disagree', 'text-block', 'cut at %d: implementation %r, model lines %r' % (k, got[1][:3], r['lines'][:3])))
+                    break
+                if got[0] != 'ok' and want is not None:
+                    probs.append(('disagree', 'text-block', 'cut at %d: model accepts %d lines, implementation raises %s' % (k, len(r['lines']), got[1])))
+                    break
+    finally:
+        open(path, 'wb').write(full)
     return probs
 
 
